@@ -55,6 +55,7 @@ func allShapes(thorough bool) []shape {
 	shapesDegenerate(ss, thorough)
 	shapesControl(ss, thorough)
 	allShapes2(ss, thorough) // shapes2_test.go
+	allShapes3(ss, thorough) // shapes3_test.go
 	return ss.list
 }
 
